@@ -17,6 +17,7 @@ func runC10(ctx *core.Ctx) {
 	ctx.Trusted = append(ctx.Trusted, "go/types, go/ssa", "sync.Map.LoadOrStore stores at most one value per key; sync/atomic load/store give acquire/release ordering (Go memory model); sync.Mutex semantics")
 	p := ctx.P
 	ctx.Rule("K1", "single entry per key: Cache.m is used only through Load and LoadOrStore, and the entry Do works on is the value one of them returned", 2)
+	c10ReturnsPublished(ctx)
 	ctx.Rule("K2", "atomic flag: the entry's done field is used only as the operand of atomic.LoadUint32/StoreUint32", 1)
 	ctx.Rule("K3", "compute under the lock, once: the user function is called in exactly one place, with the entry's mutex held, on the done == 0 edge of an atomic load performed after the Lock", 1)
 	ctx.Rule("K4", "publish after write: the store of f's result into the entry precedes the only StoreUint32(&done, 1); nothing else writes result or done", 2)
@@ -353,4 +354,48 @@ func doResultTypeOK(p *core.Prog, c *ssa.Call) (bool, string) {
 		check(ssax.ReturnValues(r)[0], 0)
 	}
 	return why == "", why
+}
+
+// c10ReturnsPublished (K8): what Do hands back is the published result.
+func c10ReturnsPublished(ctx *core.Ctx) {
+	p := ctx.P
+	ctx.Rule("K8", "Do returns the entry's result: every value returned by Cache.Do is a load of the entry's result field, or the very value stored into it on that path; a local that is only set by the goroutine that ran f leaves every waiter with nil", 1)
+	do := ctx.Need("K8", "par", "(*Cache).Do")
+	if do == nil {
+		return
+	}
+	g := graph(p, do)
+	stored := map[ssa.Value]bool{}
+	g.Instrs(func(i ssa.Instruction) {
+		if st, ok := i.(*ssa.Store); ok {
+			if fa, ok := st.Addr.(*ssa.FieldAddr); ok && ssax.FieldOf(fa) != nil && ssax.FieldOf(fa).Name() == "result" {
+				stored[st.Val] = true
+			}
+		}
+	})
+	isResultLoad := func(v ssa.Value) bool {
+		u, ok := v.(*ssa.UnOp)
+		if !ok || u.Op != token.MUL {
+			return false
+		}
+		fa, ok := u.X.(*ssa.FieldAddr)
+		return ok && ssax.FieldOf(fa) != nil && ssax.FieldOf(fa).Name() == "result"
+	}
+	bad := ""
+	n := 0
+	for _, r := range g.Returns() {
+		n++
+		v := ssax.ReturnValues(r)[0]
+		_, lv := phiWeb(v)
+		if _, isPhi := v.(*ssa.Phi); !isPhi {
+			lv = []leaf{{Val: v}}
+		}
+		for _, l := range lv {
+			if isResultLoad(l.Val) || stored[l.Val] {
+				continue
+			}
+			bad = "a return can yield " + l.Val.String() + ", which is neither the entry's result nor the value just stored in it"
+		}
+	}
+	ctx.Check(bad == "" && n > 0, "K8", "par.Cache.Do#returns-result", do.Pos(), "every return of Do yields the published result %s", bad)
 }
